@@ -324,7 +324,8 @@ def run_property(pid, tier="quick", seed=0, update_baseline=False, jobs=None):
         if o["status"] == "proved":
             n_proved += 1
             continue
-        kf = [k for k in known if k.get("obligation") in (o["name"], _base(o["name"]))]
+        kf = [k for k in known if k.get("obligation") in (o["name"], _base(o["name"]))
+              or (k.get("obligation_glob") and _glob(k["obligation_glob"], _base(o["name"])))]
         # try to replay the counter-model on the real code
         replay = o.get("replay")
         if kf:
@@ -440,6 +441,13 @@ def run_property(pid, tier="quick", seed=0, update_baseline=False, jobs=None):
             print(f"UNDECIDED property={pid} reason=baseline obligation no longer generated: {m}")
         return 2
     return 0
+
+
+def _glob(pattern, name):
+    """`obligation_glob` of a known finding: fnmatch-style, case-sensitive; `[`/`]` are literal (obligation names carry case tags in brackets)."""
+    import fnmatch
+
+    return fnmatch.fnmatchcase(name, pattern.replace("[", "\x00").replace("]", "\x01").replace("\x00", "[[]").replace("\x01", "[]]"))
 
 
 def _base(name):
